@@ -61,12 +61,16 @@ def addArray (a b : Nat) (limit : Int) : SzR :=
     let res : Int := a + b
     if res < 0 ∨ res > limit then .err else .ok (toArrSize (a + b))
 
-/-- slice_array (p, (int) from, (int) to) -/
+/-- range opcodes on arrays: the int64 bounds are clamped while still 64 bits wide (`from < 0 -> 0`,
+    `to >= size -> size - 1`, `to < -1 -> -1`, `from > size -> size`; fix 3799d77/b585239 in /repo), then
+    slice_array (p, (int) from, (int) to) - the casts are the identity on the clamped values -/
 def sliceArray (size : Nat) (lo hi : Int) : SzR :=
-  let f := toInt32 lo
-  let t := toInt32 hi
+  let f := lo
+  let t := hi
   let f := if f < 0 then 0 else f
   let t := if t ≥ size then (size : Int) - 1 else t
+  let t := if t < -1 then -1 else t
+  let f := if f > size then (size : Int) else f
   if f > t then .ok 0 else .ok (toArrSize (t - f + 1).toNat)
 
 /-- explode_string: the number of pieces is clamped to MAX_ARRAY_SIZE (never an error); `pieces` is the number of
